@@ -11,13 +11,13 @@ pub static DEF: CheckDef = CheckDef {
     id: "C07",
     run,
     replay,
-    rule: "complete product IF (32) x IE (32) x master enable (off, on, EI-pending) x run state (running, halted, stopped) x 64 stack pointers (0x0000/0x0001/0x0002 so that a push lands on IE, 0xFF10/0xFF11 on IF, 0x2001/0x4001/0x6001 on bank registers, both sides of every region boundary, I/O registers with side effects: DIV, DMA, STAT, LCDC) x PC values (all 256 high bytes when the high-byte push lands on IE or IF, all 256 low bytes when the low-byte push does, 4 otherwise), poked into two identical machines; one calls Core::handle_interrupt, the other is driven by the reference dispatch model (models::irq) through its bus. Compared: run state, master enable, PC, SP (as full 32-bit fields), charged cycles, IF, IE, the ordered list of bus writes (hook) and the complete machine state. Second pass: the same product on 6 stack pointers reached through update(), run_interp() and run_code_block(). Third pass: proptest states with arbitrary SP/PC. Non-trivial = states with a pending enabled source; classes: two or more pending, masked only, cancelled by the push, woken from HALT/STOP, push on IE / IF / bank register.",
+    rule: "complete product IF (32) x IE (32) x master enable (off, on, EI-pending) x run state (running, halted, stopped) x 64 stack pointers (0x0000/0x0001/0x0002 so that a push lands on IE, 0xFF10/0xFF11 on IF, 0x2001/0x4001/0x6001 on bank registers, both sides of every region boundary, I/O registers with side effects: DIV, DMA, STAT, LCDC) x PC values (all 256 high bytes when the high-byte push lands on IE or IF, all 256 low bytes when the low-byte push does, 4 otherwise), poked into two identical machines; one calls Core::handle_interrupt, the other is driven by the reference dispatch model (models::irq) through its bus. Compared: run state, master enable, PC, SP (as full 32-bit fields), charged cycles, IF, IE, the ordered list of bus writes (hook) and the complete machine state. IF and IE are also written with their unused upper bits set (only sources 0-4 exist). Second pass: the same product on 6 stack pointers reached through update(), run_interp() and run_code_block(). Third pass: proptest states with arbitrary SP/PC. Non-trivial = states with a pending enabled source; classes: two or more pending, masked only, cancelled by the push, woken from HALT/STOP, push on IE / IF / bank register.",
     assumptions: &[
         "models::irq (dispatch sequence from the CPU documentation: high byte pushed first, source chosen after the high-byte push, five machine cycles)",
         "when the low-byte push itself lands on IF the order of that write and the acknowledge is not prescribed: both resulting IF values are accepted",
         "bus side effects of the two pushes are produced by the repository's own bus on the twin machine (address decode is C10's subject)",
     ],
-    required_classes: &["two-or-more-pending", "masked-only", "cancelled", "woken-halt", "woken-stop", "push-on-ie", "push-on-if", "push-on-bank-register", "ime-off-pending", "via-update", "via-run_interp", "via-run_code_block", "generated-state"],
+    required_classes: &["two-or-more-pending", "masked-only", "cancelled", "woken-halt", "woken-stop", "push-on-ie", "push-on-if", "push-on-bank-register", "ime-off-pending", "via-update", "via-run_interp", "via-run_code_block", "generated-state", "unused-bits-set-in-both"],
     exhaustive: true,
 };
 
@@ -354,6 +354,19 @@ fn run(rec: &mut Rec) {
                         }
                     }
                 }
+                // IF and IE written with their unused upper bits set: only sources 0-4 exist
+                for (fi, fe) in [(0xe0u8, 0xe0u8), (0xe0, 0x00), (0x00, 0xe0), (0xa0, 0x60)] {
+                    for sp in [0xd000u16, 0x0000, 0xff10, 0xff11] {
+                        let c = Case { if_: if_ | fi, ie: ie | fe, ime, run, sp, pc: 0x2345, path: 0 };
+                        rec.eval(1);
+                        if fi & fe != 0 {
+                            rec.class("unused-bits-set-in-both", 1);
+                        }
+                        if let Err(f) = exec(&mut p, &c, rec, true, true) {
+                            rec.violation(&f.sig, case_json(&c), f.detail);
+                        }
+                    }
+                }
                 // second pass: through the emulator's stepping entry points
                 for path in 1..=3u8 {
                     for sp in [0xd000u16, 0x0000, 0x0001, 0xff10, 0xff11, 0xfffe] {
@@ -373,7 +386,7 @@ fn run(rec: &mut Rec) {
     rec.exhaustive_part("IF (32) x IE (32) x master enable (3) x run state (3) x the listed stack pointers and PC sets, direct and through update/run_interp/run_code_block");
     // third pass: generated states
     let cases = rec.ctx.tier.pick(20_000u32, 2_000_000);
-    let strat = (0u8..32, any::<u8>(), 0u8..3, 0u8..3, any::<u16>(), any::<u16>(), 0u8..4);
+    let strat = (prop_oneof![3 => 0u8..32, 1 => any::<u8>()], any::<u8>(), 0u8..3, 0u8..3, any::<u16>(), any::<u16>(), 0u8..4);
     let pair = std::cell::RefCell::new(p);
     let mk = |v: &(u8, u8, u8, u8, u16, u16, u8)| {
         let path = v.6;
